@@ -159,6 +159,36 @@ Proof.
     + rewrite derived_vadd by lia. reflexivity.
 Qed.
 
+(* any number of dealers: the product V1·V2·..·Vn (VerificationVector.Op folded from V1) verifies exactly
+   the coordinate-wise sum of the shares that V1, .., Vn assign to the holder *)
+Definition vals_add (a b : list F) : list F := map (fun xy => fst xy + snd xy) (combine a b).
+
+Lemma fold_vadd_length : forall d Vs V1, length V1 = d -> Forall (fun V => length V = d) Vs ->
+  length (fold_left (vadd K) Vs V1) = d.
+Proof.
+  intros d Vs; induction Vs as [|V Vs IH]; intros V1 H1 HF; [exact H1|]. inversion HF; subst.
+  cbn [fold_left]. apply IH; auto. rewrite vadd_length; auto.
+Qed.
+
+Lemma derived_fold_vadd : forall m id d Vs V1, length V1 = d -> Forall (fun V => length V = d) Vs ->
+  derived m (fold_left (vadd K) Vs V1) id = fold_left vals_add (map (fun V => derived m V id) Vs) (derived m V1 id).
+Proof.
+  intros m id d Vs; induction Vs as [|V Vs IH]; intros V1 H1 HF; [reflexivity|]. inversion HF; subst.
+  cbn [fold_left map]. rewrite IH by (auto; rewrite vadd_length; auto).
+  rewrite derived_vadd by lia. reflexivity.
+Qed.
+
+Theorem vv_op_sum_n : forall m id vals V1 Vs, length V1 = msp_D m -> Forall (fun V => length V = msp_D m) Vs ->
+  rows_of m id <> [] ->
+  (feldman_verify K m (id, vals) (fold_left (vadd K) Vs V1) = true <->
+   vals = fold_left vals_add (map (fun V => derived m V id) Vs) (derived m V1 id)).
+Proof.
+  intros m id vals V1 Vs H1 HF Hr. rewrite feldman_verify_iff.
+  rewrite (derived_fold_vadd m id (msp_D m) Vs V1 H1 HF). split.
+  - intros [_ [_ H]]. exact H.
+  - intros H. repeat split; auto. now apply fold_vadd_length.
+Qed.
+
 (* ---- reconstruction in the exponent ------------------------------------------------------------------- *)
 
 Theorem recon_in_exponent : forall m V ids, wf_msp m -> NoDup ids -> length V = msp_D m ->
